@@ -223,3 +223,73 @@ func c19silentFull(c *core.Ctx) {
 	}
 	c.Rep.Scenarios++
 }
+
+// c19partialLarge: a client that falls silent in the middle of a LARGE packet - the fixed
+// header announces a PUBLISH around the size the 16 KiB incoming ring can hold complete (ring
+// size minus one 8 KiB read block), part of it arrives (100 bytes; 8200 bytes, which is more
+// than the ring takes while the processor waits for the whole packet), then nothing for 1.6 K.
+// The broker may refuse the packet at its header; if it does not, the keep-alive must end the
+// connection: will published once, no goroutine of the connection left.
+func c19partialLarge(c *core.Ctx) {
+	n := 0
+	for _, r := range []int{8100, 8400, 12100, 16000, 16500} {
+		for _, k := range []int{100, 8200, 16380} {
+			n++
+			if k >= r {
+				continue
+			}
+			name := fmt.Sprintf("silent in the middle of a packet: %d of %d bytes of a PUBLISH, then 1.6 K of silence", k, r+3)
+			if c.Replay != nil && c.Replay.Scenario != name {
+				continue
+			}
+			if c.Replay == nil && c.NShards > 1 && n%c.NShards != c.Shard {
+				continue
+			}
+			r, k := r, k
+			body := func() {
+				t := newTD()
+				w := t.connect("W", 0, 65535, false)
+				t.subscribe("W", "will/#", 0)
+				x := t.connect("C", 0, 10, true)
+				if vsched.Failed() {
+					return
+				}
+				full := refcodec.Encode(&refcodec.Packet{Type: refcodec.PUBLISH, Topic: []byte("q"), Payload: []byte(big(r-3, 9))})
+				x.rc.SendRaw(full[:k])
+				t.settleExcept()
+				// (a broker that refuses the packet at its header publishes the will here already)
+				nw := len(publishesOn(w.rc.Take(), "will/c"))
+				vsched.Advance(16 * time.Second)
+				t.settleExcept()
+				nw += len(publishesOn(w.rc.Take(), "will/c"))
+				lib := threadsOf(LibThreadsAlive(), x.prefix)
+				if nw != 1 || len(lib) > 0 {
+					vsched.Failf("the client negotiated a keep-alive of 10 s, sent %d bytes of a %d-byte PUBLISH and has been silent for 16 s: its will was published %d times, %d goroutines of its connection are still there: %s", k, len(full), nw, len(lib), core.ParkedString(lib))
+				}
+			}
+			res := explore.RunDefault(body)
+			c.Rep.Executions++
+			c.Rep.Evaluations++
+			c.Rep.States++
+			c.Rep.Nontrivial++
+			c.Rep.Transitions += int64(len(res.Points))
+			if c.Replay != nil {
+				fmt.Println("replay:", name, "\n  failures:", res.Failures, firstLine(res.Crash))
+				c.Rep.Scenarios++
+				return
+			}
+			v := ""
+			if res.Status == vsched.StCrash {
+				v = "a library goroutine panicked: " + firstLine(res.Crash)
+			} else if len(res.Failures) > 0 {
+				v = res.Failures[0]
+			}
+			if v != "" {
+				if c.Violate("C19 partial-large :: "+violClass(v), core.Replay{Scenario: name, Message: v, Log: res.Log, Crash: res.Crash}) {
+					return
+				}
+			}
+		}
+	}
+	c.Rep.Scenarios++
+}
